@@ -825,6 +825,9 @@ func c20words(n int) []string {
 
 func TestVerifC20(t *testing.T) {
 	log.SetOutput(io.Discard)
+	// a logrus Fatal raised by the code under test must not end the process: it becomes a panic, which the
+	// guards around every implementation call turn into the outcome "signals an error" judged by the oracle
+	log.StandardLogger().ExitFunc = func(code int) { panic(fmt.Sprintf("log.Fatal (exit status %d)", code)) }
 	r := verifkit.New("C20")
 	defer r.Write()
 
